@@ -94,8 +94,13 @@ def field_names(tokens):
 TAG_VALUE_RE = re.compile(r'format ! \("\\"\{\}\\": \\"\{\}\\"," , ' + _LIT + r' , (?::: std :: string :: ToString :: to_string \(& \()?' + _LIT)
 
 
+# ... or with the tag already inside the literal: format!("\"t\": \"{}\",", <name expression>)
+TAG_VALUE_RE2 = re.compile(r'format ! \("\\"(?:[^"\\]|\\.)*\\": \\"\{\}\\"," , (?::: std :: string :: ToString :: to_string \(& \()?' + _LIT)
+
+
 def tag_values(tokens):
-    return [rust_unescape(m.group(2)) for m in TAG_VALUE_RE.finditer(tokens)]
+    out = [rust_unescape(m.group(2)) for m in TAG_VALUE_RE.finditer(tokens)]
+    return out or [rust_unescape(m.group(1)) for m in TAG_VALUE_RE2.finditer(tokens)]
 
 
 def unit_variant_names(tokens):
